@@ -37,6 +37,21 @@ let dec_s = function DT -> "allowed" | DF -> "denied" | DE -> "error"
 let v1raw_aout = function 0 -> Some AT | 1 -> Some AFn | 2 -> Some AFc | 3 -> Some AEc | 4 -> Some AEd | 5 -> Some AEo | _ -> None
 let b3_of_class = function 0 -> Some T | 1 -> Some F | _ -> None
 
+(* Cross-check of extraction: with ORACLE_DUMP=<file> the values the EXTRACTED model computes are
+   appended to that file, and bin/coqreplay_c03.py recomputes them inside Coq with vm_compute:
+     <id> R <i> spec v1-outcome-mask triggers stratified converged CheckReason CheckExclusionReason
+              c03_ok(default) c03_ok(weight2) c03_ok(recursive)        one line per evaluated request i
+     <id> X <i> <switch mask> <value>     the semantics variant (Check/V2Sem.v) that explained a deviation
+   (switch mask: 1 noexpand, 2 strip_ttu_userset, 4 strict_cond, 8 keep_last_recursive,
+    16 / 32 swallow by object / by user, 64 noreflex). *)
+let dump_chan = match Sys.getenv_opt "ORACLE_DUMP" with
+  | Some p when p <> "" -> Some (open_out_gen [Open_append; Open_creat] 0o644 p)
+  | _ -> None
+let aout_bit = function AT -> 1 | AFn -> 2 | AFc -> 4 | AEc -> 8 | AEd -> 16 | AEo -> 32 | AFuel -> 64
+let b3_code = function T -> 0 | F -> 1 | E -> 2
+let reason_code = function RNone -> 0 | RSelfRef -> 1 | RAlias -> 2 | RComputedSelf -> 3 | RTTU -> 4 | RUsersetExcl -> 5 | RWildExcl -> 6
+let bi b = if b then 1 else 0
+
 let dec_edge v =
   match as_list v with
   | [a; b; c; d] -> (((n_of_int (as_int a), n_of_int (as_int b)), n_of_int (as_int c)), n_of_int (as_int d))
@@ -78,6 +93,7 @@ let f _id vs =
     let m_kl = if tworec then keep_last_recursive m else m in
     let props = ref [] and diffs = ref [] and knowns = ref [] in
     let diff s = diffs := s :: !diffs in
+    let ridx = ref 0 in
     List.iter (fun sv ->
       match as_list sv with
       | [s; px; results] ->
@@ -119,6 +135,11 @@ let f _id vs =
           let combos = List.stable_sort (fun x y -> compare (weight x) (weight y)) combos in
           match List.find_opt (fun sw -> variant_val sw o rel = Some got) combos with
           | Some (_, ne, tu, sc, kl, so, su, _, _) ->
+            (match dump_chan with
+             | Some ch ->
+               Printf.fprintf ch "%s X %d %d %d\n" _id !ridx
+                 (bi ne + 2 * bi tu + 4 * bi sc + 8 * bi kl + 16 * bi so + 32 * bi su + 64 * bi nr) (b3_code got)
+             | None -> ());
             Some (if ne then "userset_subject_not_expanded"
                   else if tu then "ttu_userset_tuple_accepted"
                   else if sc then "condition_on_other_restriction_kind"
@@ -223,7 +244,7 @@ let f _id vs =
                           (String.concat "," (List.map class_s cands)) (reason_s rcr) (reason_s rer))
               end;
               (* ---- the contract ---- *)
-              let check_obs ?reason x label =
+              let mk_ob ?reason x =
                 let v2 = v2out_of x in
                 let fb, fin =
                   if mgok then (fbt > 0, dec_of fbf)
@@ -232,9 +253,21 @@ let f _id vs =
                 (* the default engine can be non-deterministic (C01 finding excl_sub_cycle): after a
                    fallback the final answer must be ONE of its possible answers *)
                 let v1 = if fb && fin <> v1 && List.mem fin v1decs then fin else v1 in
-                let ob = { ob_kind = kind; ob_spec = spec; ob_v1 = v1; ob_v2 = v2;
-                           ob_reason = (match reason with Some r -> r | None -> server_reason kind v2 v1 rcr rer);
-                           ob_fallback = fb; ob_final = fin } in
+                { ob_kind = kind; ob_spec = spec; ob_v1 = v1; ob_v2 = v2;
+                  ob_reason = (match reason with Some r -> r | None -> server_reason kind v2 v1 rcr rer);
+                  ob_fallback = fb; ob_final = fin } in
+              incr ridx;
+              (match dump_chan with
+               | Some ch ->
+                 Printf.fprintf ch "%s R %d %d %d %d %d %d %d %d %d %d %d\n" _id !ridx (b3_code spec)
+                   (List.fold_left (fun acc x -> acc lor aout_bit x) 0 oset)
+                   (bi trg.tr_excl_sub_cycle + 2 * bi trg.tr_swallow) (bi strat) (bi conv)
+                   (reason_code mrc) (match excl_reason m subj o rel with Some r -> reason_code r | None -> 7)
+                   (bi (c03_ok (mk_ob a))) (bi (c03_ok (mk_ob b))) (bi (c03_ok (mk_ob c)))
+               | None -> ());
+              let check_obs ?reason x label =
+                let ob = mk_ob ?reason x in
+                let v2 = ob.ob_v2 and fb = ob.ob_fallback and fin = ob.ob_final and v1 = ob.ob_v1 in
                 if not (c03_ok ob) then begin
                   let txt = Printf.sprintf "%s [%s] v1=%s v2=%s spec=%s reason=%s fallback=%b final=%s"
                       where label (class_s v1c) (class_s x) (b3s spec) (reason_s ob.ob_reason) fb (dec_s fin) in
